@@ -66,6 +66,15 @@ Definition read_repaired am (T : list titem) (del : list N) (m : N) (q : option 
 Definition list_ids (am : N -> N -> bool) (T : list titem) (del : list N) (m : N) (q : option expr) : list N :=
   live del (match q with None => all_ids T m | Some e => search am T m e end).
 
+(* conditioned tag-value listing (SHOW TAG VALUES ... WITH KEY = k WHERE q; searchTagValues): the values of key k carried by
+   the tag->ids rows of the measurement that have a series which is not dropped and is selected by the condition. (The code
+   builds the eligible set with searchTSIDsInternal, WITHOUT subtracting dropped ids, and leaves the dropped-id test to the row
+   check IsExpectedTag; the model subtracts once, in list_ids - both sites together must amount to this.) *)
+Definition list_tag_values_where (am : N -> N -> bool) (T : list titem) (del : list N) (m k : N) (q : option expr) : list N :=
+  map t_v (filter (fun t => (t_m t =? m) && (t_k t =? k) && mem (t_id t) (list_ids am T del m q)) T).
+Definition list_tag_keys_where (am : N -> N -> bool) (T : list titem) (del : list N) (m : N) (q : option expr) : list N :=
+  map t_k (filter (fun t => (t_m t =? m) && negb (t_k t =? 0) && mem (t_id t) (list_ids am T del m q)) T).
+
 (* ---- state and operations *)
 Record dstate := mkD {
   d_L : list entry;        (* key -> id items *)
